@@ -694,20 +694,77 @@ def _ent_output_case(repo, variant):
         shutil.rmtree(d, ignore_errors=True)
 
 
+def _nodes_case(repo, variant):
+    """The node list assigned with only some of the nodes listed: the writer must add the children it meets on the way
+    (find_or_insert), so the tree under every brush model reads back whole."""
+    import shutil
+    import tempfile
+    from contracts import bsp_support as S
+    from srctools.bsp import VisLeaf
+    bsp = S.open_sample(repo)
+    nodes = list(bsp.nodes)
+    models = list(bsp.bmodels.values()) if hasattr(bsp.bmodels, 'values') else list(bsp.bmodels)
+    if not nodes or not models:
+        return None
+
+    def sig(n, depth=0):
+        if isinstance(n, VisLeaf):
+            return ('leaf', n.cluster_id, n.area, tuple(n.mins), tuple(n.maxes), len(n.faces), len(n.brushes))
+        if depth > 400:
+            return ('deep',)
+        return ('node', tuple(n.plane.normal), n.plane.dist, tuple(n.mins), tuple(n.maxes), len(n.faces), n.area_ind,
+                sig(n.child_neg, depth + 1), sig(n.child_pos, depth + 1))
+    want = [sig(m.node) for m in models]
+    child_ids = {id(c) for n in nodes for c in (n.child_neg, n.child_pos)}
+    roots = [n for n in nodes if id(n) not in child_ids]
+    if variant == 'roots_only':
+        new = roots
+    elif variant == 'roots_reversed':
+        new = roots[::-1]
+    elif variant == 'every_other':
+        new = [n for i, n in enumerate(nodes) if i % 2 == 0 or id(n) not in child_ids]
+    else:       # the full list, reversed: every node listed, but children before their parents
+        new = nodes[::-1]
+    if len(new) == len(nodes) and variant != 'reversed':
+        return None if len(nodes) <= len(roots) else f'nodes ({variant}): could not drop any node from the list'
+    bsp.nodes = new
+    d = tempfile.mkdtemp(prefix='c11n_')
+    try:
+        try:
+            back, _ = S.save_and_reopen(bsp, d)
+            got_models = list(back.bmodels.values()) if hasattr(back.bmodels, 'values') else list(back.bmodels)
+            got = [sig(m.node) for m in got_models]
+            n_back = len(back.nodes)
+        except Exception as e:
+            return f'nodes ({variant}): save/re-read raised {type(e).__name__}: {e}'
+        if n_back != len(nodes):
+            return f'nodes ({variant}): {len(nodes)} nodes reachable, {n_back} read back ({len(new)} were listed)'
+        if got != want:
+            bad = [i for i, (w, g) in enumerate(zip(want, got)) if w != g]
+            return f'nodes ({variant}): the tree under brush model(s) {bad[:5]} reads back differently'
+        return None
+    finally:
+        shutil.rmtree(d, ignore_errors=True)
+
+
 def _job_extra(job):
     import os
     repo = os.environ.get('VERIF_REPO', '/repo')
     try:
+        if job[0] == 'nodes':
+            return _nodes_case(repo, job[1])
         return _bmodel_phys_case(repo, job[1]) if job[0] == 'bmodel' else _ent_output_case(repo, tuple(job[1]))
     except Exception as e:
         return f'{type(e).__name__}: {e}'
 
 
 @bounded('C11.B-extra', bound='sample BSP: first brush model with physics keyvalues only / solids only / neither / both; an '
-         'entity with two outputs under both map separator conventions x both per-output flags x parameters with 0..3 commas',
+         'entity with two outputs under both map separator conventions x both per-output flags x parameters with 0..3 commas; the '
+         'node list assigned with only the root nodes / roots reversed / every other node / all nodes reversed',
          rule='one case per variant')
 def b_extra(ctx):
     jobs = [('bmodel', v) for v in ('kv_only', 'solids_only', 'neither', 'both')]
+    jobs += [('nodes', v) for v in ('roots_only', 'roots_reversed', 'every_other', 'reversed')]
     for map_comma in (True, False):
         for out_comma in (True, False):
             for param in ('', 'plain', 'SpawnAt(128, 64, 0)', 'a,b'):
@@ -838,6 +895,8 @@ def b_lzma(ctx):
 BOUNDED.append(b_lzma)
 
 MUTATIONS = [
+    dict(name='nodes_written_from_a_snapshot_of_the_list', file='bsp.py', old="        for node in nodes:\n            if isinstance(node.child_pos, VisLeaf):",
+         new="        for node in list(nodes):\n            if isinstance(node.child_pos, VisLeaf):", expect='extra=nodes'),
     dict(name='texture_needle_without_terminator', file='bsp.py',
          old="            string = tex.encode('ascii', 'surrogateescape') + b'\\0'\n            ind = data.find(string)\n            if ind == -1:\n                ind = len(data)\n                data.extend(string)",
          new="            string = tex.encode('ascii', 'surrogateescape')\n            ind = data.find(string)\n            if ind == -1:\n                ind = len(data)\n                data.extend(string + b'\\0')",
